@@ -213,6 +213,8 @@ def function_lines(repo, rel, qualname):
 PINNED = [  # (name in Lean, file, function) - the functions whose logic Model/Cache.lean follows line by line
     ("TVNorm.__call__", "scico/functional/_tvnorm.py", "TVNorm.__call__"),
     ("TVNorm.prox", "scico/functional/_tvnorm.py", "TVNorm.prox"),
+    ("TVNorm._call_operator", "scico/functional/_tvnorm.py", "TVNorm._call_operator"),
+    ("TVNorm._prox_operators", "scico/functional/_tvnorm.py", "TVNorm._prox_operators"),
     ("Loss.__mul__", "scico/loss.py", "Loss.__mul__"),
     ("Loss.__truediv__", "scico/loss.py", "Loss.__truediv__"),
     ("Loss.set_scale", "scico/loss.py", "Loss.set_scale"),
